@@ -12,6 +12,7 @@ PID = "C25"
 TITLE = "Host state changes keep a single reconnector and notify listeners once"
 LEVEL = "exploration"
 ENGINE = "sim"
+THOROUGH_SCALE = 1.0
 SERIAL = os.environ.get("VERIF_TIER") == "quick"   # heavily loaded machine: a forked pool is slower than one process
 TECHNIQUE = ("model-based generation of event histories (Hypothesis) over the real Cluster/ControlConnection/Session/pools/"
              "scheduler/reconnection handlers on a deterministic simulated network and virtual clock; history invariants as oracle")
@@ -34,7 +35,9 @@ ASSUMPTIONS = ["network, clock, executor and event loop are simulated (sim/); Cl
                "default profile's policy into them, so one policy object is notified four times per transition)",
                "invariants are evaluated at quiescent points (no runnable virtual thread at the current virtual time); "
                "pool presence is evaluated right after connect and at the end (all nodes reachable for 6 s), and whenever listeners are told a host is up",
-               "connection attempts take no virtual time (connect races are C45's subject)",
+               "connection attempts take no virtual time (connect races are C45's subject), except 0.05 s when the reconnection "
+               "delay is 0 (and then the policy keeps down hosts in its plans, so that a control connection without live hosts "
+               "spends connect time instead of spinning)",
                "Cluster.sessions (a WeakSet iterated in memory-address order) is replaced by an insertion-ordered set and executor futures hash by creation number "
                "(the driver keeps them in sets and blocks on whichever the set yields first) so that a case replays identically"]
 
@@ -110,7 +113,7 @@ def enum_cases(chunk):
 
 
 def interpret(case, ctx):
-    sim = S.Sim(tape=case["tape"], granularity=case["gran"], max_steps=80000)
+    sim = S.Sim(tape=case["tape"], granularity=case["gran"], max_steps=40000)
     try:
         with sim:
             _run(case, ctx, sim)
@@ -157,7 +160,8 @@ def _run(case, ctx, sim):
     for a in addrs:
         net.add_node(a)
     lbp_log, lis_log = [], []
-    policy = S.plan_policy(log=lbp_log, distances={ignored_addr: "ignored"} if ignored_addr else None)
+    zero_delay = not case.get("rdelay", 1.0)
+    policy = S.plan_policy(log=lbp_log, distances={ignored_addr: "ignored"} if ignored_addr else None, keep_down=zero_delay)
     prof = ExecutionProfile(load_balancing_policy=policy, request_timeout=2.0)
 
     handlers = []
@@ -225,7 +229,7 @@ def _run(case, ctx, sim):
     S.fixed_random(sim, [0.0])
 
     dist = {ignored_addr: "ignored"} if ignored_addr else None
-    cluster = sim.make_cluster(addrs[:1], execution_profiles=S.separate_profiles(prof, lambda: S.plan_policy(distances=dist)),
+    cluster = sim.make_cluster(addrs[:1], execution_profiles=S.separate_profiles(prof, lambda: S.plan_policy(distances=dist, keep_down=zero_delay)),
                                reconnection_policy=ConstantReconnectionPolicy(case.get("rdelay", 1.0), max_attempts=None))
     S.deterministic_sessions(cluster)
     S.deterministic_futures(sim)
@@ -252,6 +256,11 @@ def _run(case, ctx, sim):
     if ctx._failures:
         return
     sim.settle()
+    if not case.get("rdelay", 1.0):
+        # with a zero reconnection delay a refused connect must take some virtual time, or the reconnection loop
+        # (attempt, fail, re-schedule at once) would spin without the clock moving
+        for a in addrs:
+            net.nodes[a].connect_delay = 0.05
     # the LBP learns the contact point through populate(), the listener through on_add
     lbp_log.insert(0, ("add", addrs[0], S.host_for(cluster, addrs[0])))
     nt = {"failed_then_up": False, "remove_with_reconnector": False}
